@@ -315,9 +315,13 @@ next_item:
                 ret = intf->read(intf, buf, STROPHE_MESSAGE_BUFFER_SIZE);
 
                 if (ret > 0) {
-                    ret = parser_feed(conn->parser, buf, ret);
+                    int len = ret;
+
+                    ret = parser_feed(conn->parser, buf, len);
                     if (!ret) {
-                        strophe_debug(ctx, "xmpp", "parse error [%s]", buf);
+                        /* buf is not NUL terminated */
+                        strophe_debug(ctx, "xmpp", "parse error [%.*s]", len,
+                                      buf);
                         xmpp_send_error(conn, XMPP_SE_INVALID_XML,
                                         "parse error");
                     }
